@@ -66,12 +66,15 @@ type Exec struct {
 	StubCalls   map[string]int
 	AssumeNoPanicIn map[string]bool
 	H *HarnessState
+	TermsBy map[string]int
+	SummaryUses int
+	ExactSliderUses int
 }
 
 func New(c *sym.Ctx, prog *ssa.Program) *Exec {
 	return &Exec{C: c, Prog: prog, Globals: map[*ssa.Global]*Obj{}, Intrinsics: map[string]Intrinsic{},
 		LoopBound: 8, LoopBounds: map[string]int{}, MaxDepth: 64, Reindex: true, FuncsSeen: map[string]int{},
-		strObjs: map[string]*Obj{}, loopCache: map[*ssa.Function]*loopInfo{}, StubCalls: map[string]int{}}
+		strObjs: map[string]*Obj{}, loopCache: map[*ssa.Function]*loopInfo{}, StubCalls: map[string]int{}, TermsBy: map[string]int{}}
 }
 
 type deferred struct {
@@ -111,7 +114,8 @@ func (x *Exec) Call(fn *ssa.Function, args []Val, binds []Val, g *Term) Val {
 		fail("call depth exceeded at %s", fn.String())
 	}
 	x.depth++
-	defer func() { x.depth-- }()
+	t0 := x.C.NTerms
+	defer func() { x.depth--; x.TermsBy[fn.String()] += x.C.NTerms - t0 }()
 	if _, ok := x.FuncsSeen[fn.String()]; !ok {
 		n := 0
 		for _, b := range fn.Blocks {
